@@ -235,15 +235,27 @@ def run(p, led, tier):
         led.fail("C16-R6", key, W, "WiringDiagram.required_capabilities not found")
     else:
         badu = []
+        # the capability values are the repository's own (a module may validate what it is given)
+        try:
+            CAP = p.cls("Capability", "operon_ai/core/types.py")
+            capn = [n for n, _ in CAP.enum_members()]
+        except Exception:
+            CAP, capn = None, []
+        if len(capn) < 4:
+            raise AnchorError("the Capability enumeration (≥ 4 members) was not found")
+
+        def caps_of(it, i):
+            names = {capn[1 + i % (len(capn) - 1)], capn[0]} if i % 2 == 0 else {capn[1 + i % (len(capn) - 1)]}
+            return {it.enum_member(CAP, n) for n in names} if it is not None else names
         for nmod in (0, 1, 2, 3):
             def go_u(o, _n=nmod):
                 it = Interp(p, o)
                 dg = it.instantiate(wd, [], {})
                 for i in range(_n):
-                    dg.fields["modules"][f"m{i}"] = it.instantiate(ms, [], dict(name=f"m{i}", capabilities={f"cap{i}", "shared"} if i % 2 == 0 else {f"cap{i}"}))
+                    dg.fields["modules"][f"m{i}"] = it.instantiate(ms, [], dict(name=f"m{i}", capabilities=caps_of(it, i)))
                 r = it.call_fi(rc, [dg], {})
-                return frozenset(r) if isinstance(r, (set, frozenset, list, tuple)) else repr(r)
-            want = frozenset(c for i in range(nmod) for c in ({f"cap{i}", "shared"} if i % 2 == 0 else {f"cap{i}"}))
+                return frozenset(getattr(x, "name", x) for x in r) if isinstance(r, (set, frozenset, list, tuple)) else repr(r)
+            want = frozenset(c for i in range(nmod) for c in caps_of(None, i))
             try:
                 outs = {r for _, r in explore(go_u, max_paths=20)}
             except Imprecise as e:
